@@ -235,14 +235,18 @@ def check_retirement(ctx):
 
 
 def _may_release(P):
-    """Names of functions that (transitively) unlock or wait on a mutex."""
+    """Names of functions that (transitively) release the DB mutex: unlock it
+    or wait on it.  Other lock classes (logger, cache shards) do not count."""
     cache = getattr(P, "_may_release", None)
     if cache is not None:
         return cache
+    from ..locks import classify
     direct = set()
     for f in P.all_functions:
         for b, i, e in f.events("call"):
-            if e.get("f") in ("ldb_mutex_unlock", "ldb_cond_wait"):
+            if e.get("f") == "ldb_mutex_unlock" and classify(e["a"][0], f) == "DB":
+                direct.add(f)
+            elif e.get("f") == "ldb_cond_wait" and classify(e["a"][1], f) == "DB":
                 direct.add(f)
     cg = P.callgraph()
     res = set(direct)
